@@ -529,7 +529,21 @@ class Gen:
         r = self.r
         k = r.random()
         stmts = []
-        if k < 0.4:
+        if k < 0.15:
+            # the value a catch clause compares with is an expression like any other: a parameter or a loop variable
+            # has another value at every evaluation of the same block
+            vals = [("lit", v) for v in r.sample(self.ERR_VALUES, min(3, len(self.ERR_VALUES)))]
+            stmts.append(("deffn", "guard", [("code", None, False), ("what", None, False)],
+                          ("block", [LOG("g.enter", V("code")), ("error", V("what")), LOG("g.unreached", I(0))],
+                           [(V("code"), LOG("g.handled", V("code")))], [LOG("g.finally", V("what"))])))
+            for _ in range(r.randint(3, 6)):
+                c, w = r.choice(vals), r.choice(vals)
+                stmts.append(("block", [LOG("g.result", CALL("guard", c, w))], [(None, LOG("g.escaped", w))], []))
+            lv = self.fresh("k")
+            stmts.append(("for", [lv], None, ("list", list(vals)),
+                          ("seq", [("block", [("block", [("error", vals[1])], [(V(lv), LOG("l.handled", V(lv)))], [])],
+                                    [(None, LOG("l.escaped", V(lv)))], [])])))
+        elif k < 0.45:
             stmts.append(LOG("result", self.err_block(1, False, False)))
         elif k < 0.75:
             fname = self.fresh("fn")
